@@ -28,6 +28,7 @@ def queries(tier, seed):
             for (w, h) in ((3, 2), (1, 1), (5, 1), (3, -2)):
                 variants.append((hdr, bpp, comp, ncol, w, h))
     for (hdr, bpp, comp, ncol, w, h) in variants:
+        if comp in (1, 2) and not (hdr == 40 and (w, h) == (3, 2)): continue   # run-length variants: a few attempts only (no verdict within the cap)
         hh = abs(h)
         # loop bounds: 1/4-bit rows are expanded bit by bit over the padded row; RLE runs up to 255; a 300-entry palette is filled entry by entry
         UNW[0] = 40 if bpp == 1 else (70 if bpp == 4 else (40 if comp == 3 else 16))   # bitfield masks: count_ones/trailing_zeros loops run 32 times
@@ -44,6 +45,7 @@ def queries(tier, seed):
         common = hdr == 40 and (w, h) == (3, 2) and ncol < 16 and comp in (0, 3) and bpp != 2   # RLE (comp 1, 2): thorough attempts only (no verdict in 300 s)
         lens_q = [full, full - 1, base + pal, 0] if common else [full]
         lens_t = sorted(set([0, 1, 2, 10, 14, 18, 26, 30, base - 1, base, base + pal - 1, base + pal, base + pal + 1, full - 1, full, full + 2] + list(range(base + pal, full))))
+        if comp in (1, 2): lens_t = [full]
         for L in [x for x in lens_t if x >= 0]:
             t = 'quick' if (L in lens_q and (common or (hdr != 40 and (w, h) == (3, 2) and bpp in (24, 8) and comp == 0 and ncol < 16) or (hdr == 40 and bpp in (24, 8) and comp == 0 and L == full))) else 'thorough'
             add('bmp', name, 'convert_image', 1, None, par, L, t)
@@ -90,6 +92,7 @@ def queries(tier, seed):
                     # RLE packets carry up to 128 pixels: the decoder's copy loop needs that bound
                     UNW[0] = 16; USET[0] = [(r'^F_h_read$', 70)] if imgtype == 10 else []; rle = [0x7C, 18 + idlen] if imgtype == 10 else [0, 0]   # RLE: packets of 1..4 pixels
                     lens = sorted(set([0, 1, 3, 12, 17, 18, 18 + idlen, 18 + idlen + 1, full - 1, full, full + 2]))
+                    if imgtype == 10: lens = [full] if ((w, h) == (3, 2) and idlen == 0) else []
                     for L in [x for x in lens if x >= 0]:
                         ok = imgtype in (2, 10) and (bpp, desc) in ((24, 0), (24, 32), (32, 8), (32, 40))
                         quick = imgtype != 10 and (w, h) == (3, 2) and idlen == 0 and L in (full, full - 1, 18) and (ok or L == full) 
